@@ -66,12 +66,12 @@ pub fn salted_hash<P: Payload>(i: &InitState<P>) -> Vec<u8> {
 /// Returns (message bytes, signed length, signature, parse result as text).
 pub fn build_and_parse(
     body: &[u8], seed: &[u8], trusted: &[Ed25519PublicKey], sig_ok: bool, hash_ok: bool, tail: &[u8], truncate: Option<usize>,
-    sig_len: Option<(u8, usize)>,
+    sig_len: Option<(u8, usize)>, key_salt: Option<[u8; 4]>,
 ) -> (Vec<u8>, usize, Vec<u8>, String) {
     let kp = Ed25519KeyPair::from_seed_unchecked(seed).unwrap();
     let mut pk = [0u8; ED25519_PUBLIC_KEY_LEN];
     pk.clone_from_slice(kp.public_key().as_ref());
-    let salt = [0x11u8, 0x22, 0x33, 0x44];
+    let salt = key_salt.unwrap_or([0x11u8, 0x22, 0x33, 0x44]);
     let mut hash = InitMsg::calculate_hash(&pk, &salt);
     if !hash_ok {
         hash[0] ^= 1;
